@@ -131,7 +131,8 @@ fn comp_ws(r: &mut Rng, level: u8, feats: &mut Vec<&'static str>) -> &'static st
         return " ";
     }
     feats.push("component-ws-variant");
-    *r.pick(&["", "  ", "\t", "\n "])
+    // blanks and tabs only: free newlines are granted around separators, not inside a relation
+    *r.pick(&["", "  ", "\t"])
 }
 
 pub fn gen_relation(r: &mut Rng, o: &ROpts) -> MRel {
